@@ -17,6 +17,21 @@ def devar(e):
     """replace joins of several definitions by an opaque variable atom"""
     if not isinstance(e, tuple) or not e:
         return e
+    if e[0] == "field" and str(e[2]) == "0" and isinstance(e[1], tuple) and e[1] and e[1][0] == "down" and e[1][2] == "Some":
+        # payload of an Option that is `Some` here: if the Option variable is assigned one `Some(x)` and otherwise `None`,
+        # the payload is x
+        inner = S.strip_refs(e[1][1])
+        if inner[0] == "phi":
+            alts = U.flatten_phi(inner)
+            somes = [a for a in alts if a[0] == "agg" and a[2].endswith("Option::Some")]
+            nones = [a for a in alts if a[0] == "agg" and a[2].endswith("Option::None")]
+            if len(somes) == 1 and len(somes) + len(nones) == len(alts) and somes[0][3]:
+                return devar(somes[0][3][0])
+        if inner[0] == "agg" and inner[2].endswith("Option::Some") and inner[3]:
+            return devar(inner[3][0])
+    if e[0] == "field" and isinstance(e[1], tuple) and e[1] and S.strip_refs(e[1])[0] == "agg" and S.strip_refs(e[1])[1] == "tuple" \
+            and str(e[2]).isdigit() and int(e[2]) < len(S.strip_refs(e[1])[3]):
+        return devar(S.strip_refs(e[1])[3][int(e[2])])
     if e[0] == "phi":
         return ("var", e[1])
     if e[0] == "local":
@@ -136,6 +151,15 @@ def index_facts(e, facts, seen=None):
                             lo, hi = lin(s0[3][0]), lin(s0[3][1])
                             facts.append(ge(Lin({a: 1}), lo, "range index >= start"))
                             facts.append(gt(hi, Lin({a: 1}), "range index < end"))
+                    elif s0[0] == "call" and s0[1].endswith("RangeInclusive::<Idx>::new") or \
+                            (s0[0] == "call" and s0[1].endswith("RangeInclusive::new")):
+                        if len(s0[2]) == 2 and all(st[0] in ("into_iter", "rev", "clone") for st in stages):
+                            a = norm_atom(x)
+                            if a not in seen:
+                                seen.add(a)
+                                lo, hi = lin(s0[2][0]), lin(s0[2][1])
+                                facts.append(ge(Lin({a: 1}), lo, "inclusive range index >= start"))
+                                facts.append(ge(hi, Lin({a: 1}), "inclusive range index <= end"))
     return facts
 
 
@@ -150,13 +174,21 @@ def guard_facts(ctx, body, site_bi, facts, before_site_stmts=False):
         if not bt or not cfg.dominates(gbi, site_bi) or gbi == site_bi:
             continue
         e = sy.operand(t["discr"])
-        if e[0] != "binop" or e[1] not in ("Lt", "Le", "Gt", "Ge"):
+        if e[0] != "binop" or e[1] not in ("Lt", "Le", "Gt", "Ge", "Eq", "Ne"):
             continue
         to_true = U.branch_reaches(cfg, gbi, bt[1], {site_bi})
         to_false = U.branch_reaches(cfg, gbi, bt[0], {site_bi})
         if to_true == to_false:
             continue
         op = e[1] if to_true else U.NEG[e[1]]
+        if op in ("Eq", "Ne"):
+            # unsigned x != 0  is  x > 0
+            if op == "Ne" and U.is_const(e[3]) and S.const_value(e[3]) == 0:
+                e, op = ("binop", "Gt", e[2], e[3]), "Gt"
+            elif op == "Ne" and U.is_const(e[2]) and S.const_value(e[2]) == 0:
+                e, op = ("binop", "Gt", e[3], e[2]), "Gt"
+            else:
+                continue
         a, b = lin(e[2]), lin(e[3])
         # variables must be stable from the guard to the site
         vars_ = [k[1] for k in list(a.co) + list(b.co) if isinstance(k, tuple) and k and k[0] == "var"]
